@@ -408,6 +408,21 @@ fn pun(t: &mut Tape, spec: &mut FnSpec, pool: &mut Pool) {
             e.2 = Some(rename_expr(c, &from, &to));
         }
     }
+    // often: both widths live in one straight line, `n:wi = k1; n:wj = k2; n:wj = n:wj` (no
+    // ill-sorted read: every read of the name finds the width it was last written with)
+    if t.chance(1, 2) {
+        let (wi, wj) = (pool.scalars[i].1, pool.scalars[j].1);
+        let b = t.below(spec.blocks.len());
+        let at = t.below(spec.blocks[b].len() + 1);
+        let ops = vec![
+            il::Operation::Assign { dst: il::scalar(to.clone(), wi), src: konst(t.biased(wi), wi) },
+            il::Operation::Assign { dst: il::scalar(to.clone(), wj), src: konst(t.biased(wj), wj) },
+            il::Operation::Assign { dst: il::scalar(to.clone(), wj), src: il::Expression::Scalar(il::scalar(to.clone(), wj)) },
+        ];
+        for (k, op) in ops.into_iter().enumerate() {
+            spec.blocks[b].insert(at + k, OpSpec { op, address: Some(0x3900 + 4 * k as u64) });
+        }
+    }
     pool.scalars.remove(j);
 }
 
